@@ -25,7 +25,7 @@ ID = "C17"
 LEVEL_RULE = (
     "phase A: breadth-first over canonical states (tuple of interpretation symbols on the stack above the base "
     "[reflect, eager]); from every state every enabled event (enter as with-block / as decorator defined at the base "
-    "and called here, for each of 10 interpretations; exit; exception raised here and caught k blocks up for every k; "
+    "and called here, for each of 11 interpretations; exit; exception raised here and caught k blocks up for every k; "
     "probe; substitution raising inside substitute() and adjoint forward pass raising inside AdjointTape, each caught "
     "k blocks up for every k>=0) is executed by replaying representative-history+event from a clean slate; "
     "phase B: every well-nested event sequence of the stated length over the reduced alphabet, un-merged; "
@@ -37,7 +37,8 @@ ASSUMPTIONS = [
     "memoize() and the symbol `tape` are created fresh per entry; the symbol `T0` is ONE AdjointTape instance per "
     "history that is re-entered sequentially (phases B and D); re-entering a tape object while it is still active "
     "is outside the alphabet (it overwrites its own saved outer interpretation); the user-defined partial "
-    "interpretations A and B are single objects re-entered freely, also nested in themselves",
+    "interpretations A, B (DispatchedInterpretation) and C (a plain function wrapped in CallableInterpretation, "
+    "returning None for what it declines) are single objects re-entered freely, also nested in themselves",
     "a decorator entry means: decorator object created and function decorated at the base state before the history "
     "starts, function called at the event's position",
     "the reference fv.ref.stack (list + documented composition of eager/lazy/normalize/sequential/moment_matching) "
@@ -53,7 +54,7 @@ ASSUMPTIONS = [
 
 REDUCED = ("lazy", "A", "memo", "T0")  # T0 while inactive, a fresh tape in its place while T0 is active
 _CHAIN_BASES = (None, "lazy", "reflect", "normalize", "sequential", "moment_matching", "memo", "tape")
-_CHAIN_PATTERNS = ("A", "B", "AB", "tape-first", "tape-last")
+_CHAIN_PATTERNS = ("A", "B", "C", "AB", "tape-first", "tape-last")
 
 
 def bounds(tier):
@@ -156,7 +157,16 @@ def _setup(seed=0):
     sent = Number(17.0)
     A.register(ProbeTerm, Funsor)(lambda arg: sent)
     B.register(ProbeTerm, Funsor)(lambda arg: None)
-    G.A, G.B, G.SENT, G.ProbeTerm, G.Bomb = A, B, sent, ProbeTerm, Bomb
+    sent_c = Number(23.0)
+
+    def userC(cls, *args):
+        """A function-style partial interpretation: answers the sentinel probe, declines everything else."""
+        if cls is ProbeTerm:
+            return sent_c
+        return None
+
+    C = fi.CallableInterpretation(userC)
+    G.A, G.B, G.C, G.SENT, G.SENT_C, G.ProbeTerm, G.Bomb = A, B, C, sent, sent_c, ProbeTerm, Bomb
     G.OBJ = {
         "eager": fi.eager,
         "lazy": fi.lazy,
@@ -166,6 +176,7 @@ def _setup(seed=0):
         "moment_matching": fi.moment_matching,
         "A": A,
         "B": B,
+        "C": C,
     }
     named = dict(G.OBJ)
     named.update(
@@ -268,6 +279,8 @@ def _label(fn):
         return "raised:" + type(ex).__name__
     if r is G.SENT:
         return "SENT"
+    if r is G.SENT_C:
+        return "SENTC"
     return type(r).__name__.split("[")[0]
 
 
@@ -713,8 +726,8 @@ from collections import OrderedDict
 import numpy as np
 import funsor
 from funsor import ops, interpreter
-from funsor.interpretations import (DispatchedInterpretation, eager, lazy, reflect, normalize, sequential,
-                                    moment_matching, memoize)
+from funsor.interpretations import (CallableInterpretation, DispatchedInterpretation, eager, lazy, reflect,
+                                    normalize, sequential, moment_matching, memoize)
 from funsor.adjoint import AdjointTape, forward_backward
 from funsor.domains import Bint, Real
 from funsor.tensor import Tensor
@@ -744,6 +757,13 @@ B = DispatchedInterpretation("userB")
 SENT = Number(17.0)
 A.register(ProbeTerm, Funsor)(lambda arg: SENT)
 B.register(ProbeTerm, Funsor)(lambda arg: None)
+SENTC = Number(23.0)
+
+@CallableInterpretation
+def userC(cls, *args):  # a function-style PARTIAL interpretation: None = decline
+    return SENTC if cls is ProbeTerm else None
+
+C = userC
 t1 = Tensor(np.array([1.0, 2.0, 3.0]), OrderedDict(i=Bint[3]))
 t2 = Tensor(np.array([4.0, 5.0, 6.0]), OrderedDict(i=Bint[3]))
 x, y = Variable("x", Real), Variable("y", Real)
@@ -762,7 +782,7 @@ def probe(where, expected):
     actual = []
     for f in (lambda: t1 + t2, lambda: t1.reduce(ops.add), lambda: x + y, lambda: ProbeTerm(t1)):
         r = f()
-        actual.append("SENT" if r is SENT else type(r).__name__.split("[")[0])
+        actual.append("SENT" if r is SENT else "SENTC" if r is SENTC else type(r).__name__.split("[")[0])
     print(where, "probes:", actual)
     if actual != expected:
         raise SystemExit("VIOLATED at %s: expected probe classes %s" % (where, expected))
@@ -1049,6 +1069,8 @@ def chain_histories(tier):
                 syms = ["A"] * need
             elif pat == "B":
                 syms = ["B"] * need
+            elif pat == "C":
+                syms = ["C"] * need
             elif pat == "AB":
                 syms = [("A", "B")[i % 2] for i in range(need)]
             elif pat == "tape-first":
